@@ -5,9 +5,9 @@ PROPS = {}
 PROPS['C11'] = dict(
     title='clean() normal form; word boundaries',
     groups=[dict(template='c11_word_boundaries.rs'), dict(template='c11_clean.rs')],
-    claim='',
-    not_covered=[],
-    assumptions=[],
+    claim='text::clean(s) == flat(normal_form(chars(s))) where normal_form = whitespace-split words joined by single spaces; lemmas: normal form is clean (no leading/trailing/adjacent whitespace, only \' \' separators), preserves the non-whitespace characters, is idempotent; text::word_boundaries returns exactly the maximal non-whitespace runs in order, covering every non-whitespace character; whitespace::remove / full == non-whitespace characters joined by "" / " ".',
+    not_covered=['idempotence is proved on character sequences; that re-segmenting the output string yields the same characters is an assumption about grapheme segmentation'],
+    assumptions=['domain of the property: no character mixes whitespace and non-whitespace code points (then str::trim is the identity on non-whitespace characters)', 'itertools filter/join semantics (vt_filter_join)'],
     domain=[],
 )
 
@@ -15,36 +15,36 @@ PROPS['C04'] = dict(
     title='Tokenizer vocabulary maps are mutually consistent bijections',
     groups=[dict(template='c04_bpe.rs'), dict(template='c04_byte.rs'), dict(template='c04_vocab.rs')],
     input_search=True,
-    claim='',
-    not_covered=[],
-    assumptions=[],
+    claim='For the BPE, byte and vocabulary (character) tokenizers, under the representation invariant established by their constructors: id_to_token(id) == vocab_at(id) for EVERY u32 (None exactly at and above vocab_size), vocab_size == number of ids with a token (ids contiguous), token_to_id is sound and complete w.r.t. vocab_at (every id whose token is the given UTF-8 string is returned), unk id lies in the special range.',
+    not_covered=['get_vocab (BTreeMap built from iterator chains): vocab_at stands for it', 'the constructors (Vocab::build, BPETokenizer::new, new_base_tokenizer) that establish the invariant: itertools/regex/file loading', 'pad/prefix/suffix ids inside the special range follow from the assumed invariant, not from verified constructor code'],
+    assumptions=['std HashMap model (obeys_key_model for String, Vec<u8>, Token) and Borrow-lookups (String/str, Vec<u8>/[u8])', 'ToBytes/FromBytes impls are mutually inverse (tok_bytes injective)', 'UTF-8 encoding injective; a String is determined by its characters'],
     domain=[],
 )
 
 PROPS['C16'] = dict(
     title='Inference windows tile the text exactly and respect the size limits',
     groups=[dict(template='c16_windows.rs')],
-    claim='',
-    not_covered=[],
-    assumptions=[],
-    domain=[],
+    claim='CharString::{byte_start_end,char_byte_len,char_range_to_byte_range,get,sub,len,is_empty} against the prefix-sum oracle pre() of the run-length encoded cluster lengths (panic unreachable, no overflow); windows::char: Err iff max <= 2*ctx, otherwise the windows tile [0, len): first starts at 0, each starts where the previous ended, last ends at len, none empty, ctx_start <= window_start < window_end <= ctx_end, ctx_end - ctx_start <= max, byte fields == pre(char fields), str is exactly the context slice, terminates; windows::byte: same tiling with pre(ctx_end) - pre(ctx_start) <= max_bytes, error instead of a no-progress loop.',
+    not_covered=['windows::count_until (one itertools::fold_while expression): assumed contract, a change inside it is not detected', 'windows::windows dispatcher and Full mode; text::possible_*_substrings'],
+    assumptions=['CharString::new establishes wf (cluster lengths >= 1, sum == byte length, boundaries are char boundaries)', 'str slicing at cluster boundaries (vt_str_slice)', 'usize::from(bool)'],
+    domain=['2 * context <= usize::MAX, |s| + max <= usize::MAX'],
 )
 
 PROPS['C10'] = dict(
     title='Whitespace operations and repair are inverse; repair only touches whitespace',
     groups=[dict(template='c10_whitespace.rs')],
-    claim='',
-    not_covered=[],
-    assumptions=[],
+    claim='whitespace::operations: for clean `from`/`to` with equal non-whitespace content returns Ok(ops) with one op per character of `from` and rep(from, ops) == to (Err arm unreachable, no index fault, terminates); whitespace::repair: Err iff lengths differ, otherwise output == flat(rep(chars, ops)); lemmas over rep alone: strip(rep(s, ops)) == strip(s) for EVERY ops, all-Keep is the identity; round trip = composition of the two contracts.',
+    not_covered=['operations() on inputs that violate the precondition (not clean / different content): only the stated precondition is verified'],
+    assumptions=["CharString::new/chars split a string into characters whose texts concatenate to it; Character::is_whitespace is a function of the character text; ' ' is whitespace"],
     domain=[],
 )
 
 PROPS['C18'] = dict(
     title='Word matching is a longest common subsequence; edited words are its complement',
     groups=[dict(template='c18_match_words.rs')],
-    claim='',
-    not_covered=[],
-    assumptions=[],
+    claim='text::match_words_with: the returned pairs are strictly increasing in both coordinates, every pair matches under the given (total, deterministic) predicate, their number equals lcs of the two word sequences (table proved equal to the LCS recurrence, backtrace panic unreachable), counts are the word counts; match_words instantiates it with (case-insensitive) word equality; edited_words == complement of the matched indices of that matching.',
+    not_covered=['str_match_fn (two closures of different types in an if/else): assumed to be word equality', 'split_ascii_whitespace: words_of is uninterpreted (ASCII whitespace separated words)'],
+    assumptions=['std max_by returns the last maximum', 'HashSet idioms of edited_words (vt_set_*)'],
     domain=[],
 )
 
@@ -54,39 +54,39 @@ PROPS['C12'] = dict(
     kani=[dict(crate='float_lemmas', harnesses=['norm_quotient', 'unit_quotient'],
                domain='0 <= n <= m, 1 <= m < 2^32 (complete over this domain: loop-free, fully symbolic)')],
     input_search=True,
-    claim='',
-    not_covered=[],
-    assumptions=[],
-    domain=[],
+    claim='edit::_calculate_edit_matrices: every cell of d equals the reference recurrence dist (insert, delete, keep/replace, adjacent transposition; whitespace never substituted or transposed under spaces_insert_delete_only) and every cell of ops is an optimal admissible predecessor, for all four flag combinations; operations(): script length == dist, positions sorted, panic arm unreachable, terminates; distance(): numerator == dist, denominator 1 or the longer length (>= 1: the quotient is always defined), 0 for equal strings, numerator <= denominator when normalised without spaces_insert_delete_only; prefix_distance(): numerator == min over prefixes of b. Float values: Kani lemma norm_quotient ((n as f64)/(m as f64) finite, in [0,1], 0 iff n == 0 for n <= m < 2^32).',
+    not_covered=['applying the script to a yields b (path semantics of the script) is checked only by the probe, not proved', 'edit::distances (zip/map closure)', 'normalised prefix_distance with an empty `a` (0/0) is outside the statement'],
+    assumptions=['CharString::new/chars/len', 'std min_by returns the first minimum', 'f64 casts and division are IEEE (the ghost integer view of floats: vt_f64 / vt_fdiv)'],
+    domain=['(|a|+1) * (|b|+1) <= usize::MAX'],
 )
 
 PROPS['C07'] = dict(
     title='The multi-source generator yields every item exactly once and terminates',
     groups=[dict(template='c07_generator.rs')],
     input_search=True,
-    claim='',
-    not_covered=[],
-    assumptions=[],
-    domain=[],
+    claim="MultiTrainDataGenerator::next returns Some((x, k)) only as the head of source k's remaining items, pops exactly that item, leaves every other source untouched, returns None only when all sources are exhausted without consuming anything, preserves the representation invariant and terminates (measure: number of unfinished sources); next_idx: sequential stays until finished then next source, interleaved = first unfinished source cyclically after the current one, weighted = some unfinished source; both terminate.",
+    not_covered=['weighted strategy is reproducible from the seed (determinism of ChaCha8Rng is assumed, not verified)', 'MultiTrainDataGenerator::new establishing the invariant'],
+    assumptions=['iterator contract of the boxed sources (next pops the head; None iff empty, fused)', 'rand: sample returns an index of the weight vector; WeightedIndex::new succeeds on non-empty positive weights'],
+    domain=['at least one source'],
 )
 
 PROPS['C06'] = dict(
     title='Batching partitions the item stream and respects the batch limit',
     groups=[dict(template='c06_batch.rs'), dict(template='c06_subseq.rs')],
-    claim='',
-    not_covered=[],
-    assumptions=[],
-    domain=[],
+    claim='BatchLimit::{from_items,update,limit} track exactly (count, max size) and limit() == count or count*max; Batched::batch_from returns the values its source produced in call order (ghost log), never an empty batch, every batch with more than one item within the limit, greedy-maximal remainder, terminates; find_subsequences_of_max_size_k returns only non-empty in-bounds ranges that fit, starts strictly increasing, ends non-decreasing, terminates.',
+    not_covered=['Batched::build_batch sort / shuffle / prefetch glue (sort_by_key, shuffle(rng), splice, closure capturing &mut buf): partition and seed-determinism for sorted/shuffled mode', 'completeness / right-maximality of find_subsequences_of_max_size_k'],
+    assumptions=['ItemSize::size is a pure function of the item', 'Vec of a non-zero-sized type has at most isize::MAX elements'],
+    domain=['batch_from: item sizes in [1, smax] with (limit + 2) * smax <= usize::MAX (machine arithmetic of count * max size); zero-size items are outside the verified domain'],
 )
 
 PROPS['C15'] = dict(
     title='Spelling corruption makes one bounded edit and never touches protected positions',
     groups=[dict(template='c15_providers.rs')],
     input_search=True,
-    claim='',
-    not_covered=[],
-    assumptions=[],
-    domain=[],
+    claim="InsertEdits/ReplaceEdits::get_edits: no arithmetic fault for every position and word (incl. position 0 and the empty word for insert), the looked-up context is (previous character or <bow>, character or <eow>[, next or <eow>]); DeleteEdits/SwapEdits::can_edit: true only inside the word (and never the last character unless full_delete), for the predicate's verdict on exactly those characters.",
+    not_covered=['corrupt::edit_word itself (candidate filtering, exclusion-set re-indexing): closures over impl-Trait parameters and HashSet iterator chains', 'chains of repeated edits (corrupt_spelling)'],
+    assumptions=['CharString::get returns the n-th character text (verified in C16)', 'std::borrow::Cow stand-in (only Cow::Borrowed is constructed)'],
+    domain=['ReplaceEdits::get_edits: non-empty word (documented by its expect)', 'SwapEdits::can_edit: idx < usize::MAX'],
 )
 
 _F1_ATTRS = """#[cfg_attr(kani, kani::requires(tp < (1 << %(bits)d) && fp < (1 << %(bits)d) && fn_ < (1 << %(bits)d) && (beta == 0.5 || beta == 1.0 || beta == 2.0)))]
@@ -113,26 +113,26 @@ PROPS['C13'] = dict(
           _f1_kani('t1', 20, 'f1_contract_beta1', 'thorough'),
           _f1_kani('t05', 20, 'f1_contract_beta_half', 'thorough'),
           _f1_kani('t2', 20, 'f1_contract_beta2', 'thorough')],
-    claim='',
-    not_covered=[],
-    assumptions=[],
-    domain=[],
+    claim='metrics::_f1 (extracted text, Kani function contract): precision, recall, F-beta finite and in [0,1]; (1,1,1) when fp == fn == 0 < tp; (0,0,0) when tp == 0 -- complete over the stated count domain because _f1 is loop-free; binary_f1: Err iff the lengths differ (no panic), otherwise the F-beta of the four-way counts.',
+    not_covered=['spelling_correction_f1 path (_group_words and its closing assert!: known to panic for an empty prediction, see DESIGN 8), sequence averaging (float sums), accuracy, mean edit distances (rayon + floats)', 'whitespace-correction counts as set comparison (lazy HashSet intersection/difference iterators)', '_count_tp_fp_fn itself (zip/fold with tuple-pattern closure): assumed'],
+    assumptions=['_count_tp_fp_fn returns the four-way counts'],
+    domain=['quick: tp, fp, fn < 2^10, beta = 1; thorough: < 2^20, beta in {0.5, 1, 2}'],
 )
 
 PROPS['C01'] = dict(
     title='Byte and character tokenizers encode every character faithfully and losslessly',
     groups=[dict(template='c01_byte.rs')],
-    claim='',
-    not_covered=[],
-    assumptions=[],
+    claim='Byte tokenizer: process_input yields exactly the UTF-8 bytes of every regular part as ids 0..255 and the single special id of every special part (for SOME split of the input that satisfies the assumed regex-split contract; with ignore_special_tokens the whole text is one regular part, so ids == bytes(text) and no error); tokenize = prefix ++ ids ++ suffix; de_tokenize spells exactly dec(ids), errors on an unknown special id, and is total on valid input; lemma: dec(ids_of(parts), keep) == utf8(text) for every split (round trip of the middle part).',
+    not_covered=['character tokenizer (CharTokenizer::process_token_input, VocabTokenizer::tokenize/de_tokenize): the logic is inside a closure over std::str::Chars mapped over CharString::chars(); not expressible without rewriting it', 'the regex split itself (BaseTokenizer::split_input): assumed contract split_ok', "that the final decode of prefix/suffix ids is stripped: the statement's round trip is proved for the id stream of the text (middle part)"],
+    assumptions=['BaseTokenizer::split_input: parts concatenate to the input, Special parts are special-token spellings, no parsing => one Regular part', 'CharString::new partitions the string (sum of character UTF-8 lengths == byte length)', 'UTF-8 encoding is injective and distributes over concatenation', 'R6 helper contracts (vt_extend_bytes, vt_chain3, vt_extend_full, vt_code_point_groups, vt_single_map, vt_full_ones, vt_extend_slice) = documented std semantics of the replaced iterator chains', 'representation invariant of the special vocabulary (maps mutually inverse, special ids >= 256) established by new_base_tokenizer'],
     domain=[],
 )
 
 PROPS['C17'] = dict(
     title='Token groups partition the token sequence; tensorisation is faithful',
     groups=[dict(template='c17_tensor.rs'), dict(template='c01_byte.rs')],
-    claim='',
-    not_covered=[],
-    assumptions=[],
-    domain=[],
+    claim="ByteTokenizer::process_input: the (nested) group lengths sum to prefix + ids + suffix and there is one group per character / special token / prefix / suffix token; padding_mask: row b is true^len_b then false up to the maximum; pad_ids: row b is the item's ids followed only by padding, reported lengths are the true lengths; from_shape_vec cannot fail.",
+    not_covered=['token_groups_to_sparse_coo_matrix (iter_mut().for_each / zip idioms, float weights)', 'TokenGroup::get_weights (floats)', 'Tensorize for Batch<TrainItem>'],
+    assumptions=['ndarray from_shape_vec/from_vec keep row-major data', 'R6 helper contracts (vt_extend_repeat, vt_max_or0, vt_max_len, vt_as_slice, vt_extend_cloned, vt_code_point_groups)'],
+    domain=['rows * cols <= usize::MAX'],
 )
